@@ -458,3 +458,46 @@ def exec_stmt(st, env, leaf, store):
         if is_noop(st):
             return
         raise NotEvaluable("statement kind %s" % k)
+
+
+# ------------------------------------------------------------------------------------------------ origin scope of the state wrappers
+WRAPPER_CALLBACK = {"deepEntryGuard": "entryGuard", "deepEnter": "enter", "deepReenter": "reenter", "deepPreUpdate": "preUpdate", "deepUpdate": "update",
+                    "deepPostUpdate": "postUpdate", "deepPreReact": "preReact", "deepReact": "react", "deepPostReact": "postReact", "deepQuery": "query",
+                    "deepExitGuard": "exitGuard", "deepExit": "exit", "wrapPlanSucceeded": "planSucceeded", "wrapPlanFailed": "planFailed",
+                    "wrapSelect": "select", "wrapRank": "rank", "wrapUtility": "utility"}
+
+
+def check_origin_scope(ctx, F, rule):
+    """control.stateId() (and everything keyed on the origin: requests' origin field, activeSubState(), plan status attribution) inside a callback
+    is the state whose callback runs: every S_<headed> wrapper opens an origin scope naming its own STATE_ID before it invokes the user's method
+    (directly or through the injection chain) on every path"""
+    for fid, b in insts(F, "S_", set(WRAPPER_CALLBACK), spec="headed"):
+        site = "S_<headed>::" + b["name"]
+        cb = WRAPPER_CALLBACK[b["name"]]
+        wide = "wide" + cb[0].upper() + cb[1:]
+        sid = F.const(b["tid"], "STATE_ID")
+        bad = None
+        seen_cb = False
+        for p in sym_paths(F, fid, 1):
+            opened = None
+            for ev in p:
+                if ev[0] == "call" and ev[2] is not None:
+                    cf = F.fn(ev[2])
+                    if cf.get("cls") == "Origin" and cf.get("kind") == "ctor":
+                        opened = (ev[4] or [None, None])[1] if len(ev[4] or []) > 1 else None
+                    elif cf["name"] in (cb, wide):
+                        seen_cb = True
+                        if opened is None:
+                            bad = "%s() runs without an origin scope: control.stateId() inside it is whatever was current before (INVALID or another state)" % cf["name"]
+                        elif opened != "#%s" % sid:
+                            bad = "%s() runs under an origin scope naming `%s`, not the wrapper's own STATE_ID" % (cf["name"], opened)
+                elif ev[0] == "icall" and opened is None:
+                    seen_cb = True
+                    bad = "the callback runs without an origin scope"
+                elif ev[0] == "icall":
+                    seen_cb = True
+        if not seen_cb:
+            continue
+        ctx.instance(rule, site + "/origin", {"function": site, "loc": F.floc(fid), "callback": cb})
+        if bad:
+            ctx.violation(rule, site + "/origin", "%s (%s)" % (site, F.floc(fid)), "%s: %s" % (site, bad), {})
